@@ -9,6 +9,8 @@ import RbpfModel.Model.EngineSem
 import RbpfModel.Model.Vm
 import RbpfModel.Model.JitEmit
 import RbpfModel.Model.ClifCompile
+import RbpfModel.Model.X86
+import RbpfModel.Model.JitAst
 namespace Rbpf.Drive
 open Rbpf.Hex
 
@@ -127,6 +129,45 @@ def detail (c : ExecCase) (s : State) : String :=
   let memBytes := if c.kind == "nodata" then c.mem else s.mem.mem.bytes
   s!" mem={u64Hex (fnv memBytes)} mbuff={u64Hex (fnv mbuffBytes)} extra={u64Hex (fnv extraAll)} log={s.log.length}:{u64Hex (fnvList logBytes)}"
 
+/-- the machine code of `JitEmit.compile` executed by the x86-64 model (`X86.run`) from the entry state the
+    VM kind's `execute_program_jit` creates (System V: rdi metadata pointer, rsi its length, rdx packet pointer or
+    null, rcx packet length, r8/r9 the fixed-metadata offsets).  The native stack (saved registers, the 512-byte
+    eBPF stack under rbp, pushes below it) is a region of its own; result in the engines' format. -/
+def x86Sem (c : ExecCase) (code : Array UInt8) (hfn : List Nat) (m : Memory) : String :=
+  let below := 16384
+  let dataRegions := m.mbuff :: m.mem :: m.extra
+  let hi := dataRegions.foldl (fun acc r => max acc (r.base + r.bytes.size)) 0
+  let sb0 := c.stackbase / 16 * 16
+  let clash := sb0 < below + 0x200000 || dataRegions.any fun r => r.bytes.size ≠ 0 && r.base < sb0 + 568 && sb0 - below < r.base + r.bytes.size
+  let sb := if clash then (hi + 0x100000) / 16 * 16 else sb0
+  let entry := sb + 552
+  let sentinel : BitVec 64 := 0xfffffffffffffff0#64
+  let frame : Region := Memory.writeRegion ⟨sb, Array.replicate 568 0⟩ entry (leBytes sentinel.toNat 8)
+  let lower : Region := ⟨sb - below, Array.replicate below 0⟩
+  let fns : List (Nat × Nat) := (List.range 4).filterMap fun n => (hfn[n]?).map fun a => (a, n)
+  let cfg : X86.Cfg := { code, codeBase := 0x100000, retSentinel := sentinel,
+                         ext := fun a => (fns.find? (·.1 == a)).map fun e => (e.2, mix e.2) }
+  let memPtr : Nat := if m.mem.bytes.size = 0 then 0 else m.mem.base
+  let regs : Vector (BitVec 64) 16 := Vector.replicate 16 0
+  let regs := regs.setIfInBounds X86.RDI (BitVec.ofNat 64 m.mbuff.base)
+  let regs := regs.setIfInBounds X86.RSI (BitVec.ofNat 64 m.mbuff.bytes.size)
+  let regs := regs.setIfInBounds X86.RDX (BitVec.ofNat 64 memPtr)
+  let regs := regs.setIfInBounds X86.RCX (BitVec.ofNat 64 m.mem.bytes.size)
+  let regs := regs.setIfInBounds 8 (BitVec.ofNat 64 c.fixoff.1)
+  let regs := regs.setIfInBounds 9 (BitVec.ofNat 64 c.fixoff.2)
+  let regs := regs.setIfInBounds X86.RSP (BitVec.ofNat 64 entry)
+  let s0 : X86.St := { reg := regs, rip := cfg.codeBase, flags := none, mem := frame :: (dataRegions ++ [lower]), log := [] }
+  match X86.run cfg s0 (40 * c.budget + 200) with
+  | .done r0 s =>
+    let mbuffR := (s.mem[1]?).getD default
+    let memR := (s.mem[2]?).getD default
+    let logBytes : List (BitVec 8) := s.log.flatMap fun (n, args) => leBytes n 8 ++ args.flatMap (fun a => leBytes a.toNat 8)
+    let mbuffBytes := if c.kind == "mbuff" then mbuffR.bytes else c.mbuff
+    let memBytes := if c.kind == "nodata" then c.mem else memR.bytes
+    s!"ok:r0={bvHex r0}:mem={u64Hex (fnv memBytes)}:mbuff={u64Hex (fnv mbuffBytes)}:LOG={s.log.length}:{u64Hex (fnvList logBytes)}:mis={s.misaligned}"
+  | .fault w => "fault:" ++ w.replace " " "_"
+  | .timeout => "timeout"
+
 def handleExec (toks : List String) : String :=
   match parseExec? toks with
   | none => "bad-op"
@@ -183,13 +224,24 @@ def handleExec (toks : List String) : String :=
         let hfn : List Nat := ((look (kvOf toks) "hfn").getD "").splitOn "," |>.filterMap parseNat?
         let haddr (k : Nat) : Option Nat := (c.helpers.find? (·.1 == k)).bind fun e => hfn[e.2 % 4]?
         let (um, ud) := if c.kind == "mbuff" then (true, false) else if c.kind == "fixed" then (true, true) else (false, false)
-        let jitcode := match JitEmit.compile prog haddr um ud with
+        let compiled := JitEmit.compile prog haddr um ud
+        let jitcode := match compiled with
           | .ok code => s!"{code.size}.{u64Hex (code.foldl (fun (h : UInt64) (b : UInt8) => (h ^^^ b.toUInt64) * 0x100000001b3) 0xcbf29ce484222325)}"
           | .error .err => "err"
           | .error .panic => "panic"
+        -- the same bytes run by the x86-64 model (only when the real engines run the code: the interpreter returned a value)
+        -- instruction-level description checked against the same bytes (JitAst.validate)
+        let x86valid := match JitEmit.compileWithLayout prog haddr um ud with
+          | .ok (code, locs, ex) => if JitAst.validate prog haddr um ud code { pcLocs := locs, exitLoc := ex } then "1" else "0"
+          | .error _ => "-"
+        let x86sem := match compiled, r with
+          | .ok code, .done _ _ => x86Sem c code hfn (mkMem c)
+          | .ok _, _ => "compiled"
+          | .error .err, _ => "compile-err"
+          | .error .panic, _ => "compile-panic"
         render r ++ " | claim=" ++ claim ++ (if tags.isEmpty then "" else " | tags=" ++ ",".intercalate tags) ++
           " | jitsem=" ++ eng "jit" (EngineSem.jitCompile env) (fun _ => EngineSem.jitRun env m0 c.budget) ++
-          " | clifsem=" ++ eng "clif" (EngineSem.clifCompile env) (fun _ => EngineSem.clifRun env m0 c.budget) ++ " | jitcodesem=" ++ jitcode
+          " | clifsem=" ++ eng "clif" (EngineSem.clifCompile env) (fun _ => EngineSem.clifRun env m0 c.budget) ++ " | jitcodesem=" ++ jitcode ++ " | x86sem=" ++ x86sem ++ " | x86valid=" ++ x86valid
       else
       let m := render (Interp.run env (Interp.init (mkMem c)) c.budget)
       if (look (kvOf toks) "spec") == some "isa" then
